@@ -388,6 +388,12 @@ pub fn run(ctx: &Ctx, replay: Option<&J>, idem: bool) -> i32 {
         "if aaaaaaaaaaaaaaaaaaaa > bbbbbbbbbbbbbbbbb then cccccccccccccccccccc else if dddddddd then eeeeeeeeee else ffffffffffff",
         "xs via (x, i) => do {\n  y = x * 2\n  return y + i\n}",
         "data where (row => row.value > 10 and row.ok) via (row => row.value) into sum",
+        // invisible / special code points inside string literals, keys and comments (a driver that
+        // "cleans" its input text must not touch them)
+        "bom = \"a\u{feff}b\" + \"\u{feff}\"",
+        "zw = [\"\u{200b}\", \"x\u{a0}y\", \"\u{2028}\", \"\u{85}\", \"\u{ad}\", \"\u{202e}abc\", \"\u{fffe}\", \"\u{7f}\"]",
+        "rk = {\"k\u{feff}\": 1, \"\u{200b}\": 2, \"k\": 3} // note \u{feff} \u{200b} end",
+        "// \u{feff}leading comment\nafter = \"\u{feff}\"",
         // line-break characters inside string literals and keys, in every multi-line layout path
         "r = xs via (x => do {\n  s = \"a\r\nb\"\n  return [x, s]\n})",
         "r = xs where x => do {\n  return \"a\r\nb\" == x\n}",
@@ -479,7 +485,9 @@ pub fn run(ctx: &Ctx, replay: Option<&J>, idem: bool) -> i32 {
     let cli_inputs: Vec<String> = {
         let mut v: Vec<String> = corpus().into_iter().map(|(_, t)| t).collect();
         // batches of generated programs, one statement per line group
-        let singles: Vec<&Prog> = progs.iter().filter(|p| !p.class.starts_with("corpus") && p.class != "sequence" && p.class != "commented-template").collect();
+        let mut singles: Vec<&Prog> = progs.iter().filter(|p| !p.class.starts_with("corpus") && p.class != "sequence" && p.class != "commented-template" && (!p.class.ends_with("-family") || stmts_of(&p.src).is_ok())).collect();
+        // hand-written families first: the quick tier sends only the first batches through the binary
+        singles.sort_by_key(|p| if p.class.ends_with("-family") { 0 } else { 1 });
         for chunk in singles.chunks(400).take(if thorough { 200 } else { 12 }) {
             // a line that starts with `-` would continue the previous statement: parenthesise it
             v.push(
@@ -500,7 +508,11 @@ pub fn run(ctx: &Ctx, replay: Option<&J>, idem: bool) -> i32 {
         ctx.outcome("cli-format-run");
         let want = match stmts_of(src) {
             Ok(v) => v,
-            Err(_) => continue,
+            Err(e) => {
+                // the harness's own batch file must parse: otherwise the batch checks nothing
+                ctx.machinery_error(format!("CLI batch does not parse: {}", truncate(&e, 300)));
+                continue;
+            }
         };
         match res {
             Err(e) => ctx.violation(Violation {
